@@ -203,6 +203,37 @@ def cleanup_cases(rng, cfix, n_random):
     return out
 
 
+def delete_fault_cases(rng, cfix, n_random):
+    """deletion under storage failures: the owner's delete with a failure injected at each of its storage calls (k = 1..7, and
+    pairs of failures spread over the retries), then retries, then a fresh claim of the name by another owner, then a request
+    for the name.  Once a delete has reported success the name must be free and claimable; a failed delete is finished by a retry."""
+    out = []
+    k0 = 5 if cfix else 4
+    def hist(fl, retries=2, with_cleanup=False):
+        ops = [C("a", 11)] + [D(0)] * (1 + retries)
+        th = [thr(1, ops, [False] * k0 + fl), thr(2, [C("a", 22)]), thr(9, [L("a.tunnox.net:80")])]
+        sched = [0] * 60 + [1] * 6 + [2] * 2
+        if with_cleanup:
+            th.append(thr(0, [K()]))
+            sched = [0] * 60 + [3] * 20 + [1] * 6 + [2] * 2
+        return case(th, sched)
+    for k in range(1, 8):
+        out.append(hist([False] * (k - 1) + [True]))
+        out.append(hist([False] * (k - 1) + [True], retries=0))                 # no retry: the failed delete stands
+        out.append(hist([False] * (k - 1) + [True], retries=1, with_cleanup=True))
+    for k in range(1, 8):                                                        # a second failure somewhere in the retry
+        for j in range(1, 8):
+            out.append(hist([False] * (k - 1) + [True] + [False] * 7 + [False] * (j - 1) + [True], retries=3))
+    for k in range(1, 7):                                                        # two consecutive failing calls
+        out.append(hist([False] * (k - 1) + [True, True], retries=2))
+    for _ in range(n_random):                                                    # random failure patterns, concurrent re-claim
+        fl = [rng.random() < 0.25 for _ in range(24)]
+        th = [thr(1, [C("a", 11), D(0), D(0), D(0)], [False] * k0 + fl), thr(2, [C("a", 22), C("a", 23)]), thr(1, [D(-1, 1)]),
+              thr(9, [L("a.tunnox.net:80")])]
+        out.append(case(th, [0] * k0 + bursts(rng, 4)))
+    return out
+
+
 def host_cases(rng):
     """every Host spelling of the property against a registered name, a legacy name and nothing"""
     out = []
@@ -283,7 +314,7 @@ def legacy_term(e):
     return [(e["sub"] + "." + e["base"]).encode("latin1"), e["id"], encz(e["client"]), e["tgt"], bool(e["active"]), bool(e["revoked"]), e["exp"]]
 
 
-def case_value(c, o, guarded, cfix):
+def case_value(c, o, guarded, cfix, ifirst=True):
     names = set()
     for t in c["threads"]:
         for op in t["ops"]:
@@ -307,7 +338,7 @@ def case_value(c, o, guarded, cfix):
            [[n.encode("latin1"), res_term(f)] for n, f in zip(nl, o["finals"])],
            bool(o["next_ttl"]), list(o["glist"])]
     atomic = not (c["store"] == "hybrid" and o["split_incr"])
-    return [[bool(guarded), bool(atomic), T0, bool(cfix)], ths, list(o["sched"]), [legacy_term(e) for e in c["reg"]],
+    return [[bool(guarded), bool(atomic), T0, bool(cfix), bool(ifirst)], ths, list(o["sched"]), [legacy_term(e) for e in c["reg"]],
             [legacy_term(e) for e in c["cloud"]], obs]
 
 
@@ -345,6 +376,7 @@ def run(ctx, only_cases=None):
     gen_changed = vlib.write_if_changed(os.path.join(vlib.COQ, "Gen", "C19.v"), gen_text)
     guarded = "delete_is_guarded : bool := true" in gen_text
     cfix = "counter_never_expires : bool := true" in gen_text
+    ifirst = "delete_index_before_record : bool := true" in gen_text
     broken = None
     try:
         pinfo = vlib.coq_properties("C19")
@@ -360,6 +392,7 @@ def run(ctx, only_cases=None):
         cases = []
         for f in sorted(glob.glob(os.path.join(vlib.VERIF, "corpus", "C19", "*.json"))):
             cases.append(json.load(open(f)))
+        cases += delete_fault_cases(rng, cfix, 300 if thorough else 30)     # first: their replays name the fault position
         cases += race_cases(rng, guarded, cfix, 400 if thorough else 40)
         cases += host_cases(rng)
         cases += impersonation_cases(rng, cfix, 200 if thorough else 25)
@@ -385,7 +418,7 @@ def run(ctx, only_cases=None):
             nfail += 1
             ctx.violation(key, "real repository / domain proxy lookup: " + msg, {"case": c, "observed": o})
     sc = [(c, o) for c, o in zip(cases, outs) if c["mode"] == "sched" and not o.get("abandoned")]
-    terms = [case_value(c, o, guarded, cfix) for c, o in sc]
+    terms = [case_value(c, o, guarded, cfix, ifirst) for c, o in sc]
     mism = []
     try:
         res = vlib.model_eval("C19", terms)
@@ -454,7 +487,7 @@ def run(ctx, only_cases=None):
         "samples": [{"case": sc[i][0], "observed": {"results": sc[i][1]["results"], "idx": sc[i][1]["idx"], "viol": sc[i][1]["viol"]}}
                     for i in (0, len(sc) // 2) if i < len(sc)],
         "model_vs_impl_cases": len(terms), "model_vs_impl_mismatches": len(mism), "impl_predicate_failures": nfail,
-        "abandoned_schedules": abandoned, "tree_variant": ("repaired removal path" if guarded else "pinned removal path") + "; " +
+        "abandoned_schedules": abandoned, "tree_variant": ("repaired removal path" if guarded else "pinned removal path") + ("" if ifirst else " (record deleted BEFORE the index entry)") + "; " +
                                                          ("counter key created without a deadline" if cfix else "pinned id counter (24 h TTL)"),
         "input_distribution": dict(stats, schedules=len(sc), other_modes=len(cases) - len(sc),
                                    host_spellings="name, name:80, name:8080, NAME, name:, name., [::1], [::1]:80, name:80:90, :name, [name]:80, truncated, prefixed"),
